@@ -116,13 +116,16 @@ def extract_constants(c):
     rv_nc = re.sub(r"//[^\n]*", "", rv)
     want = [r"if \(scale > 1e100\)\{", r"if \(is_synchronized == 0\)\{.*?return;", r"vc->lrescale \+= log\(scale\);",
             r"particles\[i\]\.m /= scale;\s*particles\[i\]\.x /= scale;\s*particles\[i\]\.y /= scale;\s*particles\[i\]\.z /= scale;\s*particles\[i\]\.vx /= scale;\s*particles\[i\]\.vy /= scale;\s*particles\[i\]\.vz /= scale;",
-            r"if \(r->integrator == REB_INTEGRATOR_WHFAST && r->ri_whfast\.safe_mode == 0\)\{\s*r->ri_whfast\.recalculate_coordinates_this_timestep = 1;\s*\}",
+            r"if \(r->integrator == REB_INTEGRATOR_WHFAST(?: && r->ri_whfast\.safe_mode == 0)?\)\{\s*r->ri_whfast\.recalculate_coordinates_this_timestep = 1;\s*\}",
             r"r->integrator == REB_INTEGRATOR_WHFAST && r->ri_whfast\.is_synchronized == 0"]
     miss = [w for w in want if not re.search(w, rv_nc, flags=re.S)]
     if miss or "p_jh" in rv_nc or len(re.findall(r"/= scale", rv_nc)) != 8:
         c.broken.append("proof obligation: reb_simulation_rescale_var has not the modelled shape (missing: %s; touches p_jh: %s; %d divisions by scale, expected 8)"
                         % ([w[:40] for w in miss], "p_jh" in rv_nc, len(re.findall(r"/= scale", rv_nc))))
-    c.cov["rescale_var_shape"] = "as modelled" if not miss else "UNKNOWN"
+    # source variant: is the recalculate flag set only `if safe_mode == 0` (as found: stale p_jh if safe_mode is switched
+    # off before the next step) or for WHFast in any mode (repaired)?  (`rfix` of vRescaleF)
+    K["rfix"] = int(bool(re.search(r"if \(r->integrator == REB_INTEGRATOR_WHFAST\)\{\s*r->ri_whfast\.recalculate_coordinates_this_timestep = 1;", rv_nc)))
+    c.cov["rescale_var_shape"] = ("as modelled, recalculate flag %s" % ("in any mode" if K["rfix"] else "only if safe_mode == 0 (as found: C09:rescale-var-stale-pjh-after-safe-mode-off)")) if not miss else "UNKNOWN"
     # part1 of WHFast / SABA: after `from_inertial; recalculate_coordinates_this_timestep = 0;` does the source set
     # is_synchronized = 1 (repaired, 35adc5c) or leave the flag alone (as found)?  (Config.p1fix / SabaConfig.p1fix)
     for fam_, text_, ri_ in (("W", src, "ri_whfast"), ("S", saba, "ri_saba")):
@@ -143,6 +146,19 @@ def extract_constants(c):
             c.broken.append("proof obligation: part1 of %s: the statement after 'from_inertial; recalculate = 0' (%r) has neither of the two modelled shapes" % (ri_, nxt))
         if len(re.findall(r"is_synchronized\s*=\s*1", b1)) != K["p1fix" + fam_]:
             c.broken.append("proof obligation: part1 of %s: unexpected number of assignments is_synchronized = 1" % ri_)
+    # SABA part1: does it synchronise before `from_inertial` when unsynchronised (repaired) or transform the stale
+    # particles (as found: C09:saba-part1-recalculates-unsynchronised)?  (SabaConfig.p1sync)
+    msp = re.search(r"void reb_integrator_saba_part1\(.*?\n\}", saba, flags=re.S)
+    sp1 = re.sub(r"//[^\n]*", "", msp.group(0)) if msp else ""
+    nsy = len(re.findall(r"reb_integrator_saba_synchronize\(r\);", sp1))
+    if nsy == 0:
+        K["p1sync"] = 0
+    elif nsy == 1 and re.search(r"recalculate_coordinates_this_timestep\)\{\s*if \(ri_saba->is_synchronized\s*==\s*0\)\{\s*reb_integrator_saba_synchronize\(r\);.*?\}\s*\}\s*reb_integrator_whfast_from_inertial\(r\);", sp1, flags=re.S):
+        K["p1sync"] = 1
+    else:
+        K["p1sync"] = 0
+        c.broken.append("proof obligation: reb_integrator_saba_part1: %d synchronize calls in a shape that is not modelled" % nsy)
+    c.cov["saba_part1_sync_variant"] = "synchronises before recalculating" if K["p1sync"] else "as found (from_inertial on unsynchronised particles: C09:saba-part1-recalculates-unsynchronised)"
     c.cov["part1_recalculate_variant"] = {k_: ("is_synchronized = 1 after from_inertial" if K["p1fix" + f_] else "as found (flag left alone: extra half drift with keep_unsynchronized + callbacks)")
                                           for k_, f_ in (("whfast", "W"), ("saba", "S"))}
     # does reb_simulation_integrate_raw synchronise before it changes the sign of dt?
@@ -1189,7 +1205,7 @@ def replay(c, W, exe, ncases, family):
             system["dims"].append("variational particles (1st order, non-zero)")
             if o["huge"]:
                 system["dims"].append("variational coordinates > 1e100 (rescaling event)")
-            lines.append("V %d %d %d %d %d 1 0 0 %s" % (o["safe"], o["keep"], W.K["vfix"], W.K["p1fixW"], o["huge"], " ".join(toks)))
+            lines.append("V %d %d %d %d %d %d 1 0 0 %s" % (o["safe"], o["keep"], W.K["vfix"], W.K["p1fixW"], W.K["rfix"], o["huge"], " ".join(toks)))
             base = whfast_setup(o)
 
             def setup(s, base=base, nv=o["nvar"], sc=(VAR_HUGE if o["huge"] else 1.0)):
@@ -1211,7 +1227,7 @@ def replay(c, W, exe, ncases, family):
             o = dict(type=(cs["type"] if cs else rng.choice(sorted(SABA_ROWS))), safe=int(mode == "safe"), keep=int(mode == "keep"))
             if cs is None and rng.chance(0.3):
                 no_testparticles(system)
-            lines.append("S %d %d %d %d %d 1 0 0 %s" % (o["type"], o["safe"], o["keep"], W.K["copyInside"], W.K["p1fixS"], " ".join(toks)))
+            lines.append("S %d %d %d %d %d %d 1 0 0 %s" % (o["type"], o["safe"], o["keep"], W.K["copyInside"], W.K["p1fixS"], W.K["p1sync"], " ".join(toks)))
             setup = saba_setup(o)
             key = (o["type"], o["safe"], o["keep"])
         dims_of(system, "replay " + family)
@@ -2283,6 +2299,60 @@ def callback_search(c, W, cfgs):
     c.cov["callback_search_worst (eos: fraction of its tolerance)"] = {k: float("%.3g" % v) for k, v in sorted(worst.items())}
 
 
+def mode_toggle_search(c, W, cfgs):
+    """(x) safe_mode switched between steps — the documented way to speed up a run after set-up, or to go back to
+    safe mode before editing: n1 steps in one mode, `ri_*.safe_mode` flipped, n2 steps, synchronize, against safe
+    mode all the way.  n1 = 1 puts the switch right after the first step (with variational coordinates above
+    1e100: right after a rescaling)."""
+    pick = [x for x in cfgs if x[1] in ("whfast", "saba", "mercurius") and "c2=1" not in x[0]]
+    if not c.thorough:
+        want = ("whfast c0 k0 corr0 c2=0", "whfast c1 k0 corr0 c2=0", "whfast c0 k0 corr7 c2=0", "whfast c0 k1 corr0 c2=0", "saba SABA(10,6,4)",
+                "saba SABACM2", "mercurius")
+        pick = [x for x in pick if x[0] in want or "var=" in x[0]]
+    worst = {}
+    for label, integ, mk, has_keep in pick:
+        fam = label.split()[0]
+        beat("mode_toggle_search " + label)
+        rng = c.rng.fork()
+        system = tweak(W, gen_system(rng, physics=True), integ, label, "mode toggle")
+        nvarp = (len(system["particles"]) * int(label.split("var=")[1][0]) if "var=" in label else 0) + \
+            (len(system["particles"]) if "megno=1" in label else 0)
+        for n1 in (1, 4):
+            n2 = 12
+
+            def run_t(first, second):
+                s_ = W.sim(system, integ, mk(first))
+                r_ = ctypes.byref(s_)
+                for _ in range(n1):
+                    W.lib.reb_simulation_step(r_)
+                if second != first:
+                    set_mode_flags(s_, integ, "ms", int(second == "safe"))
+                for _ in range(n2):
+                    W.lib.reb_simulation_step(r_)
+                W.lib.reb_simulation_synchronize(r_)
+                return coords(W, s_)
+            ca = run_t("safe", "safe")
+            for first, second in (("safe", "unsafe"), ("unsafe", "safe")):
+                cb_ = run_t(first, second)
+                err = grouped_err(ca, cb_, len(ca) - nvarp)
+                dim("safe_mode toggled mid-run vs safe mode (search)")
+                c.count(("mode-toggle", label, n1, first))
+                worst[fam] = max(worst.get(fam, 0.0), err) if err < 1e50 else worst.get(fam, 0.0)
+                if not err <= 1e-10:
+                    key = "mode-toggle:%s:%s-to-%s" % (fam, first, second)
+                    if "hugevar" in label and first == "safe" and n1 == 1 and not W.K["rfix"]:
+                        # reb_simulation_rescale_var sets the recalculate flag only if safe_mode == 0 at that moment
+                        key = "C09:rescale-var-stale-pjh-after-safe-mode-off"
+                    if integ == "saba" and first == "unsafe" and not W.K["p1sync"]:
+                        # SABA's part1 runs from_inertial on the particles as they are: half a drift behind
+                        key = "C09:saba-part1-recalculates-unsynchronised"
+                    c.violation(key, "%s: %d steps with safe_mode=%d, then safe_mode=%d for %d steps + synchronize differs from safe mode all the way by %.3g (relative, real and variational particles each on their own scale)"
+                                % (label, n1, int(first == "safe"), int(second == "safe"), n2, err),
+                                {"integrator": integ, "label": label, "system": system, "steps_before": n1, "steps_after": n2,
+                                 "first_mode": first, "second_mode": second, "relative_difference": err})
+    c.cov["mode_toggle_search_worst_relative_difference"] = {k: float("%.3g" % v) for k, v in sorted(worst.items())}
+
+
 def history_search(c, W, cfgs):
     """(ix) histories done the documented way (docs/integrators.md: "care must be taken to synchronize and
     recalculate coordinates manually"): steps in unsafe mode, synchronize, then change dt / add a particle /
@@ -2595,6 +2665,7 @@ def search(c, W):
     archive_outputs(c, W, cfgs)
     callback_search(c, W, cfgs)
     history_search(c, W, cfgs)
+    mode_toggle_search(c, W, cfgs)
 
 
 REQUIRED_DIMS = [
@@ -2613,7 +2684,8 @@ REQUIRED_DIMS = [
     "explicit synchronize", "user edits of particles / flags between steps", "close encounters (MERCURIUS)",
     "centre of mass offset and moving", "hyperbolic body", "N > 128 (allocation boundary)",
     "keep_unsynchronized=1 x integrate call patterns vs safe mode", "keep_unsynchronized=1 x read-only callbacks vs safe mode",
-    "variational coordinates > 1e100 (rescaling event)", "variational rescaling performed (replay)"]
+    "variational coordinates > 1e100 (rescaling event)", "variational rescaling performed (replay)",
+    "safe_mode toggled mid-run vs safe mode (search)"]
 
 
 # every public attribute of the integrator structs (extracted from rebound/integrators/*.py): where the op alphabet /
